@@ -82,6 +82,70 @@ def keymap(T):
     return km
 
 
+TREF = 7  # the same in recorded traces (whose plain values are 0..2)
+REF = 2  # FixedDict.tla: Ref == 2, a value that is a reference to a dictionary reachable from itself
+
+
+def is_fd(v):
+    return isinstance(v, dict) and hasattr(type(v), "entry_objs")
+
+
+def is_cyclic(v):
+    """is the fixed-entry dictionary v reachable from its own contents?"""
+    seen = set()
+    todo = [x for x in dict.values(v)]
+    while todo:
+        x = todo.pop()
+        if x is v:
+            return True
+        if id(x) in seen:
+            continue
+        seen.add(id(x))
+        if isinstance(x, dict):
+            todo.extend(dict.values(x))
+        elif isinstance(x, (list, tuple)):
+            todo.extend(x)
+    return False
+
+
+def proj_val(v, ref=REF):
+    if isinstance(v, int):
+        return v
+    if is_fd(v) and is_cyclic(v):
+        return ref
+    return -1
+
+
+def proj(obj, ref=REF):
+    """abstract mapping of a real dictionary (never compares or prints cyclic objects)"""
+    return dict((k, proj_val(dict.__getitem__(obj, k), ref)) for k in dict.keys(obj))
+
+
+def same(c, obj):
+    """`c` is an equal dictionary of the same type: == where Python defines it, the projection where the contents are
+    cyclic (== on cyclic dictionaries raises RecursionError for ANY implementation)"""
+    if type(c) is not type(obj) or proj(c, "ref") != proj(obj, "ref"):
+        return False
+    if any(not isinstance(v, int) for v in dict.values(obj)):
+        return True
+    return bool(c == obj and dict(c) == dict(obj))
+
+
+def loop_of(T):
+    """a fresh dictionary of type T that contains itself"""
+    loop = T()
+    loop[list(T.entry_objs.keys())[0]] = loop
+    return loop
+
+
+def concrete(v, obj, T, direct):
+    """the real value of abstract value v: Ref is the dictionary under test itself (in-place operations, `direct`)
+    or a companion dictionary that contains itself"""
+    if v != REF:
+        return v
+    return obj if direct else loop_of(T)
+
+
 def mentions(o, key):
     return o.get("k") == key or key in o.get("ks", ())
 
@@ -106,6 +170,8 @@ def exec_case(arg):
         steps += 1
         exc = None
         v = o.get("v")
+        if v == REF:
+            v = concrete(v, obj, T, direct=(not op.startswith("construct")) and (len(hist) + steps) % 2 == 0)
         try:
             if op == "construct_fd":
                 obj = T(other_fd(T, [(km[k], v) for k in o["ks"]]))
@@ -144,14 +210,14 @@ def exec_case(arg):
                 obj = operator.ior(obj, dict((km[k], v) for k in o["ks"]))
             elif op == "copy":
                 for c in (obj.copy(), copy.copy(obj), copy.deepcopy(obj)):
-                    if type(c) is not T or c != obj or dict(c) != dict(obj):
-                        viol.append(("C27|copy-differs", "copy of %r is %r (%s)" % (obj, c, type(c).__name__)))
-                obj = obj.copy()
+                    if type(c) is not T or not same(c, obj):
+                        viol.append(("C27|copy-differs", "copy of %r is %r (%s)" % (proj(obj), proj(c), type(c).__name__)))
+                obj = copy.deepcopy(obj) if (len(hist) + steps) % 3 == 0 else obj.copy()
             elif op == "pickle":
                 for proto in range(0, pickle.HIGHEST_PROTOCOL + 1):
                     c = pickle.loads(pickle.dumps(obj, proto))
-                    if type(c) is not type(obj) or c != obj or dict(c) != dict(obj):
-                        viol.append(("C27|pickle-differs", "protocol %d: %r unpickles as %r (%s)" % (proto, obj, c, type(c).__name__)))
+                    if not same(c, obj):
+                        viol.append(("C27|pickle-differs", "protocol %d: %r unpickles as %r (%s)" % (proto, proj(obj), proj(c), type(c).__name__)))
                 obj = pickle.loads(pickle.dumps(obj))
         except Exception as e:  # noqa
             exc = e
@@ -165,6 +231,9 @@ def exec_case(arg):
                 viol.append(("C27|undeclared-key-not-rejected|" + op, "%s: %s completed without its key error" % (T.__name__, o)))
             elif not isinstance(exc, FixedDictKeyError):
                 viol.append(("C27|wrong-error|%s|%s" % (op, type(exc).__name__), "%s: %s raised %r" % (T.__name__, o, exc)))
+        elif exc is not None and op in ("copy", "pickle"):
+            viol.append(("C27|%s-fails|%s" % (op, type(exc).__name__), "%s: %s of %r raised %s" % (T.__name__, op, proj(obj), type(exc).__name__)))
+            break
         elif exc is not None:
             viol.append(("C27|declared-key-rejected|%s|%s" % (op, type(exc).__name__), "%s: %s raised %r" % (T.__name__, o, exc)))
             break
@@ -172,7 +241,7 @@ def exec_case(arg):
             viol.append(("C27|type-lost|" + op, "%s: after %s the object is a %s" % (T.__name__, o, type(obj).__name__)))
             break
         want = dict((km[k], val) for k, val in (step["d"] or {}).items()) if step["d"] else {}
-        if dict(obj) != want:
+        if proj(obj) != want:
             disagree += 1
     return {"violations": viol, "disagreements": disagree, "steps": steps}
 
@@ -222,6 +291,11 @@ def record_case(arg):
         op = rnd.choice(["construct", "construct_fd", "construct_mixed", "update_mixed", "setitem", "setitem", "setdefault", "update_dict", "update_pairs", "update_kwargs", "update_fd", "ior", "ior", "ior_fd", "copy", "pickle"])
         v = rnd.randrange(3)
         o = {"op": op, "v": v}
+        if rnd.random() < 0.15:
+            # a value that is a dictionary reachable from itself: the object under test (in-place operations) or a
+            # companion that contains itself; recorded as TREF
+            o["v"] = TREF
+            v = obj if (not op.startswith("construct")) and rnd.random() < 0.5 else loop_of(T)
         if op in ("setitem", "setdefault"):
             o["k"] = rnd.choice(pool)
         elif op not in ("copy", "pickle"):
@@ -260,11 +334,11 @@ def record_case(arg):
                 obj = operator.ior(obj, dict((k, v) for k in o["ks"]))
             elif op == "copy":
                 c = rnd.choice([lambda: obj.copy(), lambda: copy.copy(obj), lambda: copy.deepcopy(obj)])()
-                eq = type(c) is type(obj) and c == obj and dict(c) == dict(obj)
+                eq = same(c, obj)
                 obj = c
             elif op == "pickle":
                 c = pickle.loads(pickle.dumps(obj, rnd.randrange(pickle.HIGHEST_PROTOCOL + 1)))
-                eq = type(c) is type(obj) and c == obj and dict(c) == dict(obj)
+                eq = same(c, obj)
                 obj = c
         except FixedDictKeyError:
             exc = "keyerror"
@@ -278,7 +352,7 @@ def record_case(arg):
                 "o": o,
                 "exc": exc,
                 "keys": [str(k) for k in keys],
-                "vals": [obj[k] if isinstance(obj[k], int) else -1 for k in keys],
+                "vals": [proj_val(dict.__getitem__(obj, k), TREF) for k in keys],
                 "typ": "fixed" if type(obj) is T else "plain",
                 "eq": eq,
             }
@@ -321,7 +395,7 @@ def trace_direction(ctx, names):
 
 def run(ctx):
     res = tlc.run("FixedDict", "mc/FixedDict.cfg", dump=True)
-    ctx.add_tlc(res, "exhaustive", {"Declared": 2, "Undeclared": 2, "Vals": 2, "MaxLen": 30, "MaxArg": 2})
+    ctx.add_tlc(res, "exhaustive", {"Declared": 2, "Undeclared": 2, "Vals": 3, "MaxLen": 30, "MaxArg": 2})
     hists = _hists(res.dump_path)
     get_type("harness.Probe")
     names = sorted(_TYPES)
@@ -369,7 +443,7 @@ def run(ctx):
     )
     ctx.assumptions += [
         "keys k1/k2 are mapped to the first and last declared entry of each type, u1/u2 to names no type declares",
-        "values are the small integers 0/1 (the key discipline does not depend on values)",
+        "values are the small integers 0/1 and Ref: a reference to a fixed-entry dictionary reachable from itself (the dictionary under test, or a companion that contains itself); equality of cyclic dictionaries is judged on the projection (int values, Ref-ness, type, key set) because == on cyclic dictionaries is undefined in Python",
     ]
 
 
